@@ -890,16 +890,48 @@ func (a *ordA) loopEffects(fn *ssa.Function, ul *uloop, d *dsu, loops []*Loop, a
 			case *ssa.MapUpdate:
 				_, isLocal := c.resolve(x.Map).(*ssa.MakeMap)
 				_, constVal := x.Value.(*ssa.Const)
-				keyed := derivesFrom(x.Key, iterAll, 0)
-				if isLocal && (constVal || keyed) {
-					effects = append(effects, "insert into local map (commutative)")
-					continue
+				// is the map also READ inside the loop? then an iteration sees what earlier ones inserted
+				readInLoop := false
+				for _, b2 := range blocks {
+					for _, in2 := range b2.Instrs {
+						if lk, ok := in2.(*ssa.Lookup); ok && c.resolve(lk.X) == c.resolve(x.Map) {
+							readInLoop = true
+						}
+						if rg, ok := in2.(*ssa.Range); ok && c.resolve(rg.X) == c.resolve(x.Map) {
+							readInLoop = true
+						}
+					}
 				}
-				if keyed && derivesFrom(x.Key, iterK, 0) {
-					effects = append(effects, "map insert keyed by the iteration key (O2)")
-					continue
+				exactKey := false // the key is the iteration key itself (unique per iteration), untransformed
+				for k := range iterK {
+					if c.resolve(x.Key) == c.resolve(k) {
+						exactKey = true
+					}
 				}
-				bad(in, "map update "+c.term(x.Map)+" in iteration order")
+				uniq := map[ssa.Value]bool{}
+				for k := range iterK {
+					uniq[k] = true
+				}
+				if ul.kind == "range unsorted slice" && strings.Contains(ul.src, "MapKeys") {
+					for _, v := range ul.iterV {
+						uniq[v] = true // the elements of a MapKeys slice are the (distinct) keys of the map
+					}
+				}
+				switch {
+				case exactKey:
+					effects = append(effects, "map insert keyed by the iteration key itself (O2)")
+					continue
+				case !readInLoop && a.injectiveOfIter(x.Key, uniq, in.Block(), 0):
+					effects = append(effects, "map insert keyed by the printed form of the iteration key (injective for the supported key kinds; NaN keys excepted — recorded assumption)")
+					continue
+				case isLocal && constVal && !readInLoop:
+					effects = append(effects, "insert of a constant into a local map not read by the loop (commutative)")
+					continue
+				case readInLoop:
+					bad(in, "map "+c.term(x.Map)+" is both written and read inside the unordered loop: what an iteration sees depends on the ones before it (first-wins / last-wins)")
+				default:
+					bad(in, "map update "+c.term(x.Map)+" keyed by "+trunc(c.term(x.Key), 60)+" in iteration order (colliding keys: last writer wins)")
+				}
 			case *ssa.Go, *ssa.Send, *ssa.Defer:
 				bad(in, "go/send/defer inside unordered iteration")
 			case ssa.CallInstruction:
@@ -961,4 +993,53 @@ func runORD(c *Ctx, r *Report) *ordA {
 		a.analyzeFn(fn)
 	}
 	return a
+}
+
+// injectiveOfIter: v is a distinct-per-iteration value, its printed form (fmt.Sprint / convertToString),
+// or a slot S[i] that the same block has just filled with such a value.
+func (a *ordA) injectiveOfIter(v ssa.Value, uniq map[ssa.Value]bool, blk *ssa.BasicBlock, depth int) bool {
+	c := a.c
+	if depth > 4 {
+		return false
+	}
+	if uniq[v] || uniq[c.resolve(v)] {
+		return true
+	}
+	switch x := v.(type) {
+	case *ssa.Extract:
+		if call, ok := x.Tuple.(*ssa.Call); ok && x.Index == 0 && c.calleeName(call.Common()) == "convertToString" {
+			return a.injectiveOfIter(call.Call.Args[0], uniq, blk, depth+1)
+		}
+	case *ssa.Call:
+		if _, ok := injectiveKeyFns[c.calleeName(x.Common())]; ok && len(x.Call.Args) == 1 {
+			for _, e := range sliceLitElems(x.Call.Args[0]) {
+				return a.injectiveOfIter(e, uniq, blk, depth+1)
+			}
+		}
+	case *ssa.MakeInterface:
+		return a.injectiveOfIter(x.X, uniq, blk, depth+1)
+	case *ssa.UnOp:
+		if x.Op != token.MUL {
+			return false
+		}
+		ia, ok := x.X.(*ssa.IndexAddr)
+		if !ok {
+			// a per-iteration variable cell holding the element
+			if r := c.resolve(x); r != ssa.Value(x) {
+				return a.injectiveOfIter(r, uniq, blk, depth+1)
+			}
+			return false
+		}
+		for _, in := range blk.Instrs {
+			st, ok := in.(*ssa.Store)
+			if !ok {
+				continue
+			}
+			ia2, ok := st.Addr.(*ssa.IndexAddr)
+			if ok && ia2.X == ia.X && ia2.Index == ia.Index {
+				return a.injectiveOfIter(st.Val, uniq, blk, depth+1)
+			}
+		}
+	}
+	return false
 }
